@@ -327,6 +327,13 @@ class World:
             if tok[1] in self.listeners:
                 hub.unsubscribe_all(tok[1])
                 self.log.append(("ctl", "unsub_all", tok[1]))
+        elif op == "new":
+            # a listener created in the middle of the history (possibly at the address of a collected one)
+            _, lid, cls, handler, filt, prio = tok
+            if lid not in self.listeners and not in_handler:
+                self.listeners[lid] = Listener(self, lid, {})
+                hub.subscribe(lid, CLS[cls], handler, filt, prio)
+                self.log.append(("ctl", "new", lid, cls))
         elif op == "drop":
             if not in_handler and self.active_handlers == 0 and tok[1] in self.listeners:
                 hub.drop(tok[1])
@@ -510,6 +517,10 @@ def run_program(ctx, config_id, config, ties, prog):
         ctx.count("programs_with_exception_exit")
     if any(e[0] == "ctl" and e[1] == "drop" for e in model.log):
         ctx.count("programs_with_gc_dropped_listener")
+    if any(e[0] == "ctl" and e[1] == "new" for e in model.log):
+        ctx.count("programs_with_listener_created_mid_history")
+    if len(prog) > 100:
+        ctx.count("programs_with_long_queue")
     if sig is not None:
         ctx.violation(sig, {"config": config_id, "program": prog, "real_log": real.log[:80], "model_log": model.log[:80]})
     elif ctx.rng.random() < 0.0005:
@@ -517,7 +528,7 @@ def run_program(ctx, config_id, config, ties, prog):
 
 
 def random_config(rng):
-    nl = rng.choice([3, 3, 4])
+    nl = rng.choice([3, 3, 4, 4, 4, 4])   # priorities are lid + 4k: at most 4 scripted listeners stay tie-free
     ties = rng.random() < 0.2
     config = []
     for lid in range(nl):
@@ -556,8 +567,17 @@ def random_prog(rng, n, nl, handler=False, ties=False):
             prog.append(("unsub", rng.randrange(nl), rng.choice(["A", "B", "C", "M"])))
         elif r < 0.98 or handler:
             prog.append(("unsub_all", rng.randrange(nl)))
-        else:
+        elif r < 0.99:
             prog.append(("drop", rng.randrange(nl)))
+        else:
+            lid = nl + rng.randrange(3)
+            prog.append(("new", lid, rng.choice(["A", "B", "C", "M"]), rng.choice(["notify", "method", "plain"]),
+                         rng.choice(["all", "all", "even"]), 1000 + 7 * lid))
+    if not handler and rng.random() < 0.03:
+        # a long queue: many broadcasts inside one delay block
+        burst = [("delay",)] + [("b", rng.choice(["A", "B", "C", "B2"])) for _ in range(rng.randint(50, 300))] + [("exit",)]
+        k = rng.randrange(len(prog) + 1)
+        prog[k:k] = burst
     return prog
 
 
